@@ -27,9 +27,14 @@ FACTOR = 64.0
 # ------------------------------------------------------------------------------------------------
 # generators
 
-def rand_grids(rng, npts):
+def rand_grids(rng, npts, int_coords=False):
     """non-uniform r (>0) and v, uniform periodic theta on [0, 2pi) and uniform z: what the constructors assume"""
     nr, nq, nz, nv = npts
+    if int_coords:
+        # whole-number radii and velocities handed over as INTEGER arrays (np.arange, cumulative sums of ints)
+        r = np.cumsum([rng.randint(1, 3) for _ in range(nr)]).astype(np.int64)
+        v = (np.cumsum([rng.randint(1, 3) for _ in range(nv)]) - rng.randint(3, 6)).astype(np.int64)
+        return [r, np.arange(nq) * (2 * np.pi / nq), rng.uniform(-1, 1) + np.arange(nz) * rng.uniform(0.3, 3.0), v]
     r0 = rng.uniform(0.05, 2.0)
     r = r0 + np.concatenate([[0.0], np.cumsum([rng.uniform(0.2, 1.5) for _ in range(nr - 1)])])
     v0 = rng.uniform(-6.0, -1.0)
@@ -232,7 +237,7 @@ def diag_cases(chk, drv):
     for P in grids:
         for rep in range(reps):
             npts = npts_for(rng, P, hi=chk.n(5, 6))
-            eta = rand_grids(rng, npts)
+            eta = rand_grids(rng, npts, int_coords=(len(grids) > 2 and P == grids[2] and rep == 0) or (P == grids[0] and rep == 0))
             # 4-D real distribution function: the three standard layouts + a random connected set of permutations
             G = rand_field(rng, npts, False)
             run_diag_case(chk, drv, P, npts, STD4, eta, G, KINDS, 'standard', policy=rng.choice(['inorder', 'reverse', 'random']), seed=rep)
@@ -347,6 +352,7 @@ def minmax_cases(chk, drv):
             sel = [[a, rng.choice([0, npts[a] - 1, rng.randrange(npts[a])])] for a in axes]
         root = rng.randrange(int(np.prod(P)))
         as_list = rng.random() < 0.5
+        as_array = rng.random() < 0.4
 
         def body():
             comm = MPI.COMM_WORLD
@@ -359,10 +365,15 @@ def minmax_cases(chk, drv):
                 a = (root,)
             elif len(sel) == 1 and not as_list:
                 a = (root, sel[0][0], sel[0][1])
+            elif as_array:
+                # index arrays kept by the caller and used for both calls (the colour range of a plot)
+                a = (root, np.array([s[0] for s in sel]), np.array([s[1] for s in sel]))
             else:
                 a = (root, [s[0] for s in sel], [s[1] for s in sel])
             mn = g.getMin(*a)
             mx = g.getMax(*a)
+            if sel and isinstance(a[1], np.ndarray) and ([int(x) for x in a[1]] != [s[0] for s in sel] or [int(x) for x in a[2]] != [s[1] for s in sel]):
+                raise ValueError('getMin/getMax changed the index arrays of the caller: %s %s' % (a[1], a[2]))
             lmn = lmx = None
             if not cplx:
                 try:
